@@ -159,7 +159,7 @@ InitWith(sc) ==
   /\ mem = [w \in Workers |-> [p \in Paths |-> NotLoaded]]
   /\ stack = [w \in Workers |-> <<>>]
   /\ wpc = [w \in Workers |-> "apply"]
-  /\ cur = [w \in Workers |-> [p |-> "", stage |-> "none"]]
+  /\ cur = [w \in Workers |-> [p |-> "", stage |-> "none", eidx |-> 0]]   \* eidx: index of the patch whose file patch made the worker stop with an error
   /\ err = [w \in Workers |-> FALSE]
   /\ earliest = Len(sc.series) + 1          \* 1-based patch indexes: "no failure" = n + 1
   /\ final = 0 /\ cleanq = {} /\ rejq = {} /\ mainpc = "workers" /\ ops = 0 /\ faulted = FALSE
@@ -172,24 +172,36 @@ NoOp  == UNCHANGED <<ops, faulted>>
 (* ---- apply phase ---- *)
 Consider(w) ==
   /\ wpc[w] = "apply"
-  /\ IF queue[w] = <<>> THEN wpc' = [wpc EXCEPT ![w] = "applied"] /\ UNCHANGED <<mem, stack, earliest, queue>>
-     ELSE IF Head(queue[w]).idx > earliest THEN wpc' = [wpc EXCEPT ![w] = "applied"] /\ UNCHANGED <<mem, stack, earliest, queue>>
+  /\ IF queue[w] = <<>> THEN wpc' = [wpc EXCEPT ![w] = "applied"] /\ UNCHANGED <<mem, stack, earliest, queue, cur>>
+     ELSE IF Head(queue[w]).idx > earliest THEN wpc' = [wpc EXCEPT ![w] = "applied"] /\ UNCHANGED <<mem, stack, earliest, queue, cur>>
+     ELSE IF Head(queue[w]).fp.kind = "E"
+     THEN \* apply_one_file_patch returns an error: the worker stops; the error counts if no earlier patch fails
+          /\ cur' = [cur EXCEPT ![w].eidx = Head(queue[w]).idx]
+          /\ earliest' = IF Head(queue[w]).idx < earliest THEN Head(queue[w]).idx ELSE earliest
+          /\ wpc' = [wpc EXCEPT ![w] = "applied"]
+          /\ queue' = [queue EXCEPT ![w] = Tail(@)]
+          /\ UNCHANGED <<mem, stack>>
      ELSE LET e == Head(queue[w])
               r == ApplyOne(mem[w], e.idx, e.fp, e.rev)
           IN /\ mem' = [mem EXCEPT ![w] = r.mem]
              /\ stack' = [stack EXCEPT ![w] = IF r.pushed THEN Append(@, r.st) ELSE @]
              /\ earliest' = IF ~r.ok /\ e.idx < earliest THEN e.idx ELSE earliest
              /\ queue' = [queue EXCEPT ![w] = Tail(@)]
-             /\ UNCHANGED wpc
+             /\ UNCHANGED <<wpc, cur>>
   /\ NoOp
-  /\ UNCHANGED <<scn, files, dirs, rej, bak, applied, exit, nextIno, written, cur, err, final, cleanq, rejq, mainpc>>
+  /\ UNCHANGED <<scn, files, dirs, rej, bak, applied, exit, nextIno, written, err, final, cleanq, rejq, mainpc>>
 
+\* an error of a worker counts iff the single-threaded run would have reached it: its patch is not behind the first failing one
+ApplyError == \E w \in Workers : cur[w].eidx # 0 /\ cur[w].eidx <= earliest
 BarrierApply ==
   /\ \A w \in Workers : wpc[w] = "applied"
   /\ final' = earliest
-  /\ wpc' = [w \in Workers |-> "rollpast"]
+  /\ IF ApplyError
+     THEN \* the push ends here with the error: nothing has been written, nothing will be
+          /\ wpc' = [w \in Workers |-> "done"] /\ mainpc' = "exit" /\ exit' = "error"
+     ELSE /\ wpc' = [w \in Workers |-> "rollpast"] /\ UNCHANGED <<mainpc, exit>>
   /\ NoOp
-  /\ UNCHANGED <<scn, files, dirs, rej, bak, applied, exit, nextIno, written, queue, mem, stack, cur, err, earliest, cleanq, rejq, mainpc>>
+  /\ UNCHANGED <<scn, files, dirs, rej, bak, applied, nextIno, written, queue, mem, stack, cur, err, earliest, cleanq, rejq>>
 
 (* ---- reject phase ---- *)
 RECURSIVE RollPastF(_, _, _)
@@ -240,14 +252,14 @@ SaveStep(w) ==
                                   THEN /\ cleanq' = IF ParentDir(p) # "" THEN cleanq \cup {ParentDir(p)} ELSE cleanq
                                        /\ mem' = [mem EXCEPT ![w][p].loaded = FALSE]
                                        /\ UNCHANGED cur
-                                  ELSE /\ cur' = [cur EXCEPT ![w] = [p |-> p, stage |-> "create"]]
+                                  ELSE /\ cur' = [cur EXCEPT ![w].p = p, ![w].stage = "create"]
                                        /\ UNCHANGED <<cleanq, mem>>
                                /\ UNCHANGED <<wpc, err>>
                        /\ UNCHANGED <<dirs, nextIno, written>>
                   ELSE \* the file is new: nothing to unlink
                        /\ NoOp
                        /\ IF f.deleted THEN mem' = [mem EXCEPT ![w][p].loaded = FALSE] /\ UNCHANGED cur
-                          ELSE cur' = [cur EXCEPT ![w] = [p |-> p, stage |-> "mkdir"]] /\ UNCHANGED mem
+                          ELSE cur' = [cur EXCEPT ![w].p = p, ![w].stage = "mkdir"] /\ UNCHANGED mem
                        /\ UNCHANGED <<files, dirs, cleanq, wpc, err, nextIno, written>>
      \/ /\ cur[w].stage = "mkdir"
         /\ Count
@@ -267,7 +279,7 @@ SaveStep(w) ==
                 /\ written' = IF files[p].ex THEN written \cup {files[p].ino} ELSE written
                 /\ nextIno' = nextIno + 1
                 /\ mem' = [mem EXCEPT ![w][p].loaded = FALSE]
-                /\ cur' = [cur EXCEPT ![w] = [p |-> "", stage |-> "none"]]
+                /\ cur' = [cur EXCEPT ![w].p = "", ![w].stage = "none"]
                 /\ UNCHANGED <<wpc, err>>
         /\ UNCHANGED <<dirs, cleanq>>
   /\ UNCHANGED <<scn, rej, bak, applied, exit, queue, stack, earliest, final, rejq, mainpc>>
@@ -361,10 +373,10 @@ DiskTree == [p \in Paths |-> IF files[p].ex THEN [ex |-> TRUE, cells |-> files[p
 \* C05 / C06 / C08 / C13: every terminating behaviour without a fault leaves exactly the reference result
 SameAsRef ==
   (Terminated /\ scn.failAt = 0 /\ ~Ref.adversarial) =>
-    /\ exit # "error"
+    /\ (exit = "error") = Ref.error
     /\ DiskTree = Ref.tree
     /\ applied = Ref.applied
-    /\ (exit = "ok") = (Ref.exit = 0)
+    /\ (exit = "ok") = (Ref.exit = 0) /\ (exit = "failed") = (Ref.exit = 1 /\ ~Ref.error)
     /\ rej = {[path |-> x.path, parts |-> [i \in 1..Len(x.parts) |-> x.parts[i].failed]] : x \in Ref.rejects}
     /\ bak = Ref.backups
     /\ dirs = ({ParentDir(p) : p \in {q \in Paths : Ref.tree[q].ex}} \cup {ParentDir(r.path) : r \in rej}) \ {""}
